@@ -378,6 +378,25 @@ func (e *stubEnv) external(r *engine.Run, fn *ssa.Function, args []engine.Value,
 	case "os.MkdirAll", "os.WriteFile", "os.Remove", "os.RemoveAll", "os.Rename", "os.Create", "os.OpenFile", "os.Mkdir", "os.Chmod":
 		ps.Effects = append(ps.Effects, effectOf(name, fn, args))
 		return zeroResults(fn), true
+	case "os.ReadFile":
+		// previous content of a file: absent, empty, the payload the harnesses use, or that payload followed by more
+		ps.Effects = append(ps.Effects, effectOf(name, fn, args))
+		mkBytes := func(b string) engine.Value {
+			elems := make([]engine.Value, len(b))
+			for i := range b {
+				elems[i] = engine.BVConst(8, uint64(b[i]))
+			}
+			return engine.Slice{Elems: elems, Len: len(b)}
+		}
+		switch r.Choice(4) {
+		case 0:
+			return engine.Tuple{engine.Zero(fn.Signature.Results().At(0).Type()), newError(r, "os.ReadFile", args[0])}, true
+		case 1:
+			return engine.Tuple{mkBytes(""), engine.Iface{}}, true
+		case 2:
+			return engine.Tuple{mkBytes("content"), engine.Iface{}}, true
+		}
+		return engine.Tuple{mkBytes("content and stale rest"), engine.Iface{}}, true
 	case "golang.org/x/tools/go/packages.Load":
 		ps.Effects = append(ps.Effects, effectOf(name, fn, args))
 		return zeroResults(fn), true
@@ -425,6 +444,18 @@ func (e *stubEnv) external(r *engine.Run, fn *ssa.Function, args []engine.Value,
 		return nil, sortByLess(r, args[0], args[1], site)
 	case "path/filepath.Join", "path/filepath.Dir", "path/filepath.Base", "path/filepath.Ext", "path/filepath.IsAbs", "path/filepath.Abs", "path/filepath.Rel", "path/filepath.Clean",
 		"path.Join", "path.Dir", "path.Base":
+		// byte-symbolic argument of Base / Ext: the Go-coded model (validated against the library) is executed
+		if name == "path/filepath.Base" || name == "path/filepath.Ext" || name == "path.Base" {
+			if st, ok := args[0].(engine.Str); ok && st.Atom == nil {
+				if _, conc := st.Concrete(); !conc {
+					m := "VerifModelPathBase"
+					if name == "path/filepath.Ext" {
+						m = "VerifModelPathExt"
+					}
+					return e.model(r, m, args, site)
+				}
+			}
+		}
 		return filepathStub(r, name, args)
 	case "(*bytes.Buffer).Bytes":
 		return engine.Slice{Elems: []engine.Value{}, Len: 0}, true
